@@ -247,6 +247,19 @@ JudgeSurface(v) ==
     (IF Near(Mul(v.ih, Sq(ab)), aa, Add(Sq(ab), aa), FRESBITS) THEN {} ELSE {"surface_t_s"}) \cup
     (IF Near(Mul(v.iv, Sq(cd)), aa, Add(Sq(cd), aa), FRESBITS) THEN {} ELSE {"surface_t_p"}) \cup
     (IF MeanLaw([iu |-> v.iu, ia |-> v.ih, ib |-> v.iv]) THEN {} ELSE {"unpolarized_mean"})
+(* a polarizer used as the coating of a surface of a lens without any other  *)
+(* loss (BaseCoatingPolarized with the element as its .jones; PolarizedRays  *)
+(* .update(jones) composes it with the local bases):                          *)
+(*   w = [ipass, iblock, iunpol, itwice] - the intensities the trace reports  *)
+(* for the element's stated state, for the orthogonal state, for unpolarized  *)
+(* light, and for the stated state through two such elements in series.       *)
+(* A projector onto its stated state passes it whole, blocks the orthogonal   *)
+(* one, halves unpolarized light, and twice is once.                          *)
+JudgeInLens(w) ==
+  (IF Near(w.ipass, One, One, INTBITS) THEN {} ELSE {"element_passes_stated_state"}) \cup
+  (IF Near(w.iblock, Zero, One, INTBITS) THEN {} ELSE {"element_blocks_orthogonal_state"}) \cup
+  (IF Near(Add(w.iunpol, w.iunpol), One, One, INTBITS) THEN {} ELSE {"unpolarized_mean"}) \cup
+  (IF Near(w.itwice, w.ipass, One, INTBITS) THEN {} ELSE {"element_idempotent_in_trace"})
 \* the algebraic fact behind MeanLaw (checked in MC_Polarization): for every 2x2 J
 \* and every e,  |J e|^2 + |J Orth(e)|^2 = |e|^2 * ||J||_F^2
 BasisIndependent(J, e) ==
